@@ -26,8 +26,13 @@ macro_rules! explore {
 		if f == Family::Iri {
 			auths.push(Some("é"));
 			pvals.push("é");
+			// a ':' in the first segment after a non-ASCII character
+			pvals.push("é:b");
 			segs.push("é");
+			segs.push("é:b");
 		}
+		// an empty segment behind a '.' shield with a ':' segment after it
+		pvals.push("/.//a:b");
 		if $level >= 1 {
 			segs.extend(["%2E", "1:b"]);
 			pvals.extend(["//", "..", "a//b"]);
